@@ -49,6 +49,9 @@ type tr struct {
 	tmp     int
 	usesEnv bool
 	retTy   string
+	fname   string
+	loops   int
+	aux     []string
 }
 
 func (t *tr) fresh() string { t.tmp++; return fmt.Sprintf("t_%d", t.tmp) }
@@ -361,9 +364,9 @@ func (t *tr) call(x *ast.CallExpr, pre *[]string) string {
 }
 
 // assigned collects the variables a statement list assigns that were declared before `before`
-func (t *tr) assigned(body *ast.BlockStmt) []string {
+func (t *tr) assigned(body *ast.BlockStmt) ([]string, []string) {
 	seen := map[string]bool{}
-	var out []string
+	var out, tys []string
 	note := func(e ast.Expr) {
 		for {
 			if ix, ok := e.(*ast.IndexExpr); ok {
@@ -383,6 +386,7 @@ func (t *tr) assigned(body *ast.BlockStmt) []string {
 		if obj.Pos() < body.Pos() && !seen[id.Name] {
 			seen[id.Name] = true
 			out = append(out, ident(id.Name))
+			tys = append(tys, t.leanType(obj.Type()))
 		}
 	}
 	ast.Inspect(body, func(n ast.Node) bool {
@@ -396,7 +400,47 @@ func (t *tr) assigned(body *ast.BlockStmt) []string {
 		}
 		return true
 	})
-	return out
+	return out, tys
+}
+
+// captured: the variables of the enclosing function a loop body reads (declared before the body, not in `exclude`)
+func (t *tr) captured(body *ast.BlockStmt, exclude map[string]bool) (names, tys []string) {
+	seen := map[string]bool{}
+	ast.Inspect(body, func(n ast.Node) bool {
+		id, ok := n.(*ast.Ident)
+		if !ok || id.Name == "_" {
+			return true
+		}
+		v, ok := t.info.Uses[id].(*types.Var)
+		if !ok || v.IsField() {
+			return true
+		}
+		if v.Pos() >= body.Pos() && v.Pos() <= body.End() {
+			return true
+		}
+		if v.Parent() != nil && v.Parent().Parent() == types.Universe {
+			fail("package-level variable %s", id.Name)
+		}
+		nm := ident(id.Name)
+		if exclude[nm] || seen[nm] {
+			return true
+		}
+		seen[nm] = true
+		names = append(names, nm)
+		tys = append(tys, t.leanType(v.Type()))
+		return true
+	})
+	return
+}
+
+func tupleTy(xs []string) string {
+	if len(xs) == 0 {
+		return "Unit"
+	}
+	if len(xs) == 1 {
+		return xs[0]
+	}
+	return "(" + strings.Join(xs, " × ") + ")"
 }
 
 func tuple(xs []string) string {
@@ -555,15 +599,11 @@ func (t *tr) stmts(list []ast.Stmt, c ctx) []string {
 		if x.Value != nil {
 			val = ident(x.Value.(*ast.Ident).Name)
 		}
-		carried := t.assigned(x.Body)
+		carried, carriedTys := t.assigned(x.Body)
 		st := tuple(carried)
 		inner := ctx{
 			ret:  func(v string) string { return "pure (Go.LoopR.ret " + v + ")" },
 			fall: func() []string { return []string{"pure (Go.LoopR.next " + st + ")"} },
-		}
-		// a `return` inside a nested loop leaves through every enclosing loop
-		if c.ret("X") != "pure X" {
-			inner.ret = c.ret
 		}
 		for _, bs := range x.Body.List {
 			ast.Inspect(bs, func(n ast.Node) bool {
@@ -573,15 +613,55 @@ func (t *tr) stmts(list []ast.Stmt, c ctx) []string {
 				return true
 			})
 		}
+		// the body becomes a definition of its own (go_<function>_loop<k>), so that theorems can speak about it;
+		// the variables of the function it reads are its parameters
+		t.loops++
+		loopName := fmt.Sprintf("go_%s_loop%d", t.fname, t.loops)
+		exclude := map[string]bool{key: true, val: true}
+		for _, cn := range carried {
+			exclude[cn] = true
+		}
+		capNames, capTys := t.captured(x.Body, exclude)
+		prevEnv := t.usesEnv
+		t.usesEnv = false
 		body := t.stmts(x.Body.List, inner)
+		bodyEnv := t.usesEnv
+		t.usesEnv = prevEnv || bodyEnv
 		fn := "Go.forRange"
+		elemTy := ""
 		if b, ok := t.info.Types[x.X].Type.Underlying().(*types.Basic); ok && b.Info()&types.IsString != 0 {
 			fn = "Go.forRangeStr"
+			elemTy = "Nat"
+		} else if sl, ok := t.info.Types[x.X].Type.Underlying().(*types.Slice); ok {
+			elemTy = t.leanType(sl.Elem())
+		} else {
+			fail("range over %s", t.info.Types[x.X].Type.String())
+		}
+		var def strings.Builder
+		pos := t.fset.Position(x.Pos())
+		fmt.Fprintf(&def, "/-- the body of the `for … range` loop at line %d of `func %s` -/\n", pos.Line, t.fname)
+		params := ""
+		if bodyEnv {
+			params += " (E : Env)"
+		}
+		for i, cn := range capNames {
+			params += fmt.Sprintf(" (%s : %s)", cn, capTys[i])
+		}
+		stTy := tupleTy(carriedTys)
+		fmt.Fprintf(&def, "def %s%s : Int → %s → %s → Go.M (Go.LoopR %s %s) := fun %s %s %s => do\n", loopName, params, elemTy, stTy, t.retTy, stTy, key, val, st)
+		for _, l := range body {
+			def.WriteString("  " + l + "\n")
+		}
+		t.aux = append(t.aux, def.String())
+		call := loopName
+		if bodyEnv {
+			call += " E"
+		}
+		for _, cn := range capNames {
+			call += " " + cn
 		}
 		r := t.fresh()
-		out = append(out, fmt.Sprintf("let %s ← %s (ρ := %s) %s %s (fun %s %s %s => do", r, fn, t.retTy, coll, st, key, val, st))
-		out = append(out, ind(ind(body))...)
-		out[len(out)-1] += ")"
+		out = append(out, fmt.Sprintf("let %s ← %s (ρ := %s) %s %s (%s)", r, fn, t.retTy, coll, st, call))
 		out = append(out, "match "+r+" with")
 		out = append(out, "| .ret v_ => "+c.ret("v_"))
 		out = append(out, "| .next "+st+" => do")
@@ -599,6 +679,9 @@ func (t *tr) function(fd *ast.FuncDecl) (text string, usesEnv bool) {
 	sig := obj.Type().(*types.Signature)
 	t.tmp = 0
 	t.usesEnv = false
+	t.fname = fd.Name.Name
+	t.loops = 0
+	t.aux = nil
 	t.retTy = t.leanType(sig.Results())
 	params := []string{}
 	for i := 0; i < sig.Params().Len(); i++ {
@@ -633,6 +716,9 @@ func (t *tr) function(fd *ast.FuncDecl) (text string, usesEnv bool) {
 	}
 	pos := t.fset.Position(fd.Pos())
 	var b strings.Builder
+	for _, a := range t.aux {
+		b.WriteString(a + "\n")
+	}
 	fmt.Fprintf(&b, "/-- %s:%d `func %s` -/\n", pos.Filename[strings.LastIndex(pos.Filename, "/")+1:], pos.Line, fd.Name.Name)
 	fmt.Fprintf(&b, "def go_%s%s %s : Go.M %s := do\n", fd.Name.Name, env, strings.Join(params, " "), t.retTy)
 	for _, l := range body {
